@@ -117,6 +117,89 @@ def m_asarray(I, x, **kw):
     raise Unsupported("asarray")
 
 
+def m_ones(I, shape, dtype=float, **kw):
+    if isinstance(shape, int):
+        shape = (shape,)
+    return Arr.new(I.ctx.heap, shape, 1 if dtype in (int, numpy.int32, numpy.int64) else 1.0)
+
+
+def m_full(I, shape, fill_value, dtype=None, **kw):
+    if isinstance(shape, int):
+        shape = (shape,)
+    return Arr.new(I.ctx.heap, shape, fill_value)
+
+
+def m_arange(I, *a, **kw):
+    if any(is_sym(x) for x in a):
+        raise Unsupported("symbolic arange")
+    vals = list(range(*[int(x) for x in a]))
+    return Arr.new(I.ctx.heap, (len(vals),), vals)
+
+
+def m_copy(I, a, **kw):
+    if isinstance(a, Arr):
+        return Arr.new(I.ctx.heap, a.shape, cells(I, a))
+    return a.copy() if hasattr(a, "copy") else a
+
+
+def m_sum(I, xs, start=0):
+    tot = start
+    for x in (cells(I, xs) if isinstance(xs, Arr) else list(xs)):
+        if is_sym(x) and z3.is_bool(x):
+            x = z3.If(x, 1, 0)
+        tot = I.binop(__import__("ast").Add(), tot, x)
+    return tot
+
+
+def m_any(I, xs):
+    return b_or(*[as_cond(x) for x in (cells(I, xs) if isinstance(xs, Arr) else list(xs))])
+
+
+def m_all(I, xs):
+    return b_and(*[as_cond(x) for x in (cells(I, xs) if isinstance(xs, Arr) else list(xs))])
+
+
+def m_np_abs(I, a):
+    if isinstance(a, Arr):
+        return I.arr_map(lambda x: m_abs(I, x), a)
+    return m_abs(I, a)
+
+
+def m_np_where(I, c, a=None, b=None):
+    if a is None or b is None:
+        raise Unsupported("np.where with one argument on symbolic data")
+    return I.arr_map(lambda cc, x, y: I.ite(as_cond(cc), x, y) if as_cond(cc) not in (True, False) else (x if as_cond(cc) else y), c, a, b)
+
+
+def m_np_minimum(I, a, b):
+    return I.arr_map(lambda x, y: m_min(I, x, y), a, b) if isinstance(a, Arr) or isinstance(b, Arr) else m_min(I, a, b)
+
+
+def m_np_maximum(I, a, b):
+    return I.arr_map(lambda x, y: m_max(I, x, y), a, b) if isinstance(a, Arr) or isinstance(b, Arr) else m_max(I, a, b)
+
+
+def m_arr_copy(I, a, *args, **kw):
+    return m_copy(I, a)
+
+
+def m_arr_sum(I, a, *args, **kw):
+    return m_sum(I, a)
+
+
+def m_arr_max(I, a, *args, **kw):
+    return m_max(I, a)
+
+
+def m_arr_min(I, a, *args, **kw):
+    return m_min(I, a)
+
+
+def m_arr_flatten(I, a, *args, **kw):
+    c = cells(I, a)
+    return Arr.new(I.ctx.heap, (len(c),), c)
+
+
 def install(I):
     import ast
     I.cmp_ge = lambda a, b: I.cmp(ast.GtE(), a, b)
@@ -139,3 +222,22 @@ def install(I):
     M[builtins.float] = m_float
     M[numpy.asarray] = m_asarray
     M["arr.fill"] = m_fill
+    M["arr.copy"] = m_arr_copy
+    M["arr.sum"] = m_arr_sum
+    M["arr.max"] = m_arr_max
+    M["arr.min"] = m_arr_min
+    M["arr.flatten"] = m_arr_flatten
+    M["arr.ravel"] = m_arr_flatten
+    M[numpy.ones] = m_ones
+    M[numpy.full] = m_full
+    M[numpy.arange] = m_arange
+    M[numpy.copy] = m_copy
+    M[numpy.abs] = m_np_abs
+    M[numpy.where] = m_np_where
+    M[numpy.minimum] = m_np_minimum
+    M[numpy.maximum] = m_np_maximum
+    M[numpy.min] = m_min
+    M[numpy.amax] = m_max
+    M[builtins.sum] = m_sum
+    M[builtins.any] = m_any
+    M[builtins.all] = m_all
